@@ -77,9 +77,28 @@ def correspond(ctx):
             vals = [rng.randint(-9, 9) if src_tc == 'i' else rng.randint(-8, 8) / 2.0 for _ in range(cnt)]
             arr = array.array(fmt, vals)
             mv = memoryview(arr)
-            kind = rng.choice(['flat', 'slice', 'c2d'])
+            kind = rng.choice(['flat', 'slice', 'c2d', 'c2d-rows', 'f2d-rows', 'f2d-rows'])
             try:
-                if kind == 'slice' and cnt:
+                if kind == 'f2d-rows':
+                    # the column-major 2-D buffer a matrix exports, restricted to a range of rows (gaps between the columns)
+                    m0, n0 = rng.randint(1, 4), rng.randint(1, 4)
+                    src_tc = rng.choice('di'); fmt = 'd' if src_tc == 'd' else 'l'
+                    vals = [rng.randint(-9, 9) if src_tc == 'i' else rng.randint(-8, 8) / 2.0 for _ in range(m0 * n0)]
+                    Asrc = matrix(vals, (m0, n0), src_tc)
+                    a = rng.randrange(m0); st = rng.choice([1, 1, 2, -1]); b = rng.choice([None, rng.randint(0, m0)])
+                    mv2 = memoryview(Asrc)[a:b:st]
+                    mm, nn = mv2.shape; s0, s1, base = st, m0, a
+                    cnt = m0 * n0
+                elif kind == 'c2d-rows' and cnt:
+                    divs = [d for d in range(1, cnt + 1) if cnt % d == 0]
+                    m0 = rng.choice(divs); n0 = cnt // m0
+                    a = rng.randrange(m0); st = rng.choice([1, 2, -1]); b = rng.choice([None, rng.randint(0, m0)])
+                    mv2 = mv.cast('B').cast(fmt, shape=(m0, n0))[a:b:st]
+                    mm, nn = mv2.shape; s0, s1, base = st * n0, 1, a * n0
+                    kind_ok = True
+                elif kind == 'c2d-rows': kind = 'flat'
+                if kind in ('f2d-rows', 'c2d-rows'): pass
+                elif kind == 'slice' and cnt:
                     st = rng.choice([1, 2, 3, -1, -2]); a = rng.randrange(cnt)
                     mv2 = mv[a::st]
                     base = a; s0 = st; mm, nn, s1 = len(mv2), 1, 0
